@@ -91,7 +91,14 @@ pub fn gen_file(fmt: &str, rng: &mut Rng, n: usize) -> (String, Vec<String>) {
                 text.push_str(&format!("AC  {}\nXX\nID  {}\nXX\nNA  {}\nXX\n", id, id, name));
                 text.push_str("P0      A      C      G      T\n");
                 for i in 0..w { text.push_str(&format!("{:02}     {:>2}     {:>2}     {:>2}     {:>2}      N\n", i + 1, counts[i][0], counts[i][1], counts[i][2], counts[i][3])); }
-                text.push_str("XX\n//\n");
+                text.push_str("XX\n");
+                // optional blocks after the matrix, as in TRANSFAC releases: binding sites, comments, and a literature reference
+                if rng.below(3) == 0 { text.push_str("BA  5 elements from 5 genes\nXX\nBS  AGAACCAGCTGTGGAATG; R05143; 7; 18;; p.\nBS  AAAAACAGCTGTTGTCAT; R05144; 7; 18;; p.\nXX\nCC  compiled sequences\nXX\n"); }
+                if rng.below(2) == 0 {
+                    text.push_str("RN  [1]; RE0001814.\nRX  PUBMED: 2833704.\nRA  Mermod N., Williams T. J., Tjian R.\nRT  Enhancer binding factors AP-4 and AP-1 act in concert\nRL  Nature 332:557-561 (1988).\nXX\n");
+                    if rng.below(2) == 0 { text.push_str("RN  [2]\nRA  Hu Y.-F., Luescher B.\nRL  Genes Dev. 4:1741-1752 (1990).\nXX\n"); }
+                }
+                text.push_str("//\n");
                 sigs.push(format!("{:?}|{:?}|{:?}|{}", Some(id.as_str()), Some(id.as_str()), Some(name.as_str()), m));
             }
             "uniprobe" => {
@@ -152,6 +159,24 @@ pub fn sweep_c15(tier: &str, seed: u64, only: &str) -> (usize, Vec<String>) {
                     _ => { let j = rng.below(m.len()); let (a, c) = (i.min(j), i.max(j)); m.drain(a..c); }   // delete a span (ragged rows, headers without matrix)
                 }
                 inputs.push(m);
+            }
+            // line-level mutations: one row longer / shorter than the others (ragged matrices), a repeated line, a missing line
+            let lines: Vec<&[u8]> = b.split_inclusive(|&c| c == b'\n').collect();
+            for li in 0..lines.len() {
+                for kind in 0..4 {
+                    let mut m: Vec<u8> = Vec::new();
+                    for (lj, l) in lines.iter().enumerate() {
+                        if lj != li { m.extend_from_slice(l); continue; }
+                        let body = if l.ends_with(b"\n") { &l[..l.len() - 1] } else { &l[..] };
+                        match kind {
+                            0 => { m.extend_from_slice(body); m.extend_from_slice(if fmt == "uniprobe" { b"\t0.5" } else { b" 7" }); m.push(b'\n'); }
+                            1 => { let cut = body.iter().rposition(|&c| c == b' ' || c == b'\t').unwrap_or(body.len()); m.extend_from_slice(&body[..cut]); m.push(b'\n'); }
+                            2 => { m.extend_from_slice(l); m.extend_from_slice(l); }
+                            _ => {}
+                        }
+                    }
+                    inputs.push(m);
+                }
             }
         }
         for inp in &inputs {
